@@ -1,8 +1,1247 @@
-(** Model of the streams command family (stub: filled in by its own section of the build). *)
-From Ferrous Require Import Base.Bytes Model.Resp Model.Types.
+(** Model of the stream and consumer-group commands (C15, C16):
+    src/storage/stream.rs, consumer_groups.rs, commands/streams.rs,
+    commands/consumer_groups.rs and the engine.rs x* functions.
+
+    Three layers, bottom-up, each code-shaped:
+      1. StreamId text, StreamData (sorted Vec + binary searches), the atomics;
+      2. ConsumerGroup / PendingEntryList (four representations of the pending set);
+      3. the command handlers [h_x...] : now -> db -> parts -> reply * db.
+    Stream-level functions ([st_...], [g_...]) are what the theorems of
+    Proofs/StreamFacts.v and Proofs/GroupFacts.v talk about; the handlers only parse
+    arguments, resolve key and group, and call them. *)
+From Ferrous Require Import Base.Bytes Model.Resp Model.Types Model.Strings.
 Open Scope Z_scope.
 
+(** ------------------------------------------------------------------ *)
+(** * 1. Stream IDs                                                     *)
+
+Definition sid_zero : sid := (0, 0).
+Definition sid_max : sid := (u64_max, u64_max).          (* StreamId::max() *)
+
+(** StreamId::parse_u64_fast: digits only, empty string = 0, wrapping arithmetic *)
+Fixpoint parse_u64_fast (l : bytes) (acc : Z) : option Z :=
+  match l with
+  | [] => Some acc
+  | c :: r => if is_digit c then parse_u64_fast r ((acc * 10 + (c - 48)) mod two64) else None
+  end.
+(** split at the first '-' *)
+Fixpoint split_dash (l : bytes) : option (bytes * bytes) :=
+  match l with
+  | [] => None
+  | c :: r => if c =? 45 then Some ([], r)
+              else match split_dash r with Some (a, b) => Some (c :: a, b) | None => None end
+  end.
+(** StreamId::from_string *)
+Definition sid_of_bytes (l : bytes) : option sid :=
+  match split_dash l with
+  | Some (a, b) =>
+      match parse_u64_fast a 0, parse_u64_fast b 0 with
+      | Some ms, Some sq => Some (ms, sq)
+      | _, _ => None
+      end
+  | None => None
+  end.
+Definition sid_to_bytes (i : sid) : bytes := print_nat (fst i) ++ [45] ++ print_nat (snd i).
+Definition r_sid (i : sid) : frame := FBulk (sid_to_bytes i).
+
+(** ------------------------------------------------------------------ *)
+(** * 2. StreamData                                                     *)
+
+Definition fields := list (bytes * bytes).
+Definition sentry := (sid * fields)%type.
+
+(** HashMap::insert on the field map; kept sorted by field name (iteration order of a
+    HashMap is unobservable: the harness sorts the pairs of every entry) *)
+Fixpoint finsert (k v : bytes) (l : fields) : fields :=
+  match l with
+  | [] => [(k, v)]
+  | (k', v') :: r =>
+      match bcmp k k' with
+      | Lt => (k, v) :: l
+      | Eq => (k, v) :: r
+      | Gt => (k', v') :: finsert k v r
+      end
+  end.
+
+Definition empty_stream : stream :=
+  {| s_entries := []; s_last := sid_zero; s_ams := 0; s_aseq := 0; s_len := 0; s_groups := [] |}.
+
+(** entries.binary_search_by(|e| e.id.cmp(x)) on the sorted, duplicate-free Vec:
+    (true, index of x) or (false, insertion point) *)
+Fixpoint bsearch (x : sid) (l : list sentry) : bool * Z :=
+  match l with
+  | [] => (false, 0)
+  | e :: r =>
+      match sid_cmp (fst e) x with
+      | Lt => match bsearch x r with (f, i) => (f, 1 + i) end
+      | Eq => (true, 0)
+      | Gt => (false, 0)
+      end
+  end.
+
+(** the first [c] elements ([c] may be as large as usize::MAX: never converted to nat) *)
+Definition ztake {A} (c : Z) (l : list A) : list A := if len l <=? c then l else zfirstn c l.
+Definition take_count {A} (count : option Z) (l : list A) : list A :=
+  match count with Some c => ztake c l | None => l end.
+
+(** StreamData::range (after the repair dc07967): start index = first entry >= start,
+    exclusive end index = number of entries <= end; nothing when that is 0 or not above
+    the start index *)
+Definition range_start_idx (es : list sentry) (st : sid) : Z := snd (bsearch st es).
+Definition range_end_excl (es : list sentry) (en : sid) : Z :=
+  match bsearch en es with
+  | (true, i) => i + 1
+  | (false, i) => i
+  end.
+Definition st_range (es : list sentry) (st en : sid) (count : option Z) (reverse : bool) : list sentry :=
+  let si := range_start_idx es st in
+  let ee := range_end_excl es en in
+  if (ee =? 0) || (ee <=? si) then [] else
+  let hi := Z.min (ee - 1) (Z.max (len es - 1) 0) in
+  let sel := if hi <? si then [] else zfirstn (hi - si + 1) (zskipn si es) in
+  take_count count (if reverse then rev sel else sel).
+
+(** StreamData::range_after *)
+Definition st_range_after (es : list sentry) (after : sid) (count : option Z) : list sentry :=
+  let si := match bsearch after es with (true, i) => i + 1 | (false, i) => i end in
+  take_count count (zskipn si es).
+
+(** StreamId::generate_next_atomic (after the repair fb507d0) with the clock reading
+    [now_ms]: a later millisecond gives (now,0); otherwise (prev_ms, seq+1); when the
+    sequence is exhausted (prev_ms+1, 0); when that is exhausted too, None *)
+Definition gen_next (now_ms : Z) (s : stream) : option (sid * Z * Z) :=
+  if s_ams s <? now_ms then Some ((now_ms, 0), now_ms, 0)
+  else if s_aseq s + 1 <=? u64_max then Some ((s_ams s, s_aseq s + 1), s_ams s, s_aseq s + 1)
+  else if s_ams s + 1 <=? u64_max then Some ((s_ams s + 1, 0), s_ams s + 1, 0)
+  else None.
+
+(** StreamData::add_auto: no comparison with last_id, push *)
+Definition st_add_auto (now_ms : Z) (s : stream) (f : fields) : option (sid * stream) :=
+  match gen_next now_ms s with
+  | Some (id, ms, sq) =>
+      Some (id, {| s_entries := s_entries s ++ [(id, f)]; s_last := id; s_ams := ms; s_aseq := sq;
+                   s_len := s_len s + 1; s_groups := s_groups s |})
+  | None => None
+  end.
+
+Definition has_id (id : sid) (es : list sentry) : bool := fst (bsearch id es).
+
+(** StreamData::add_with_id: None = refused *)
+Definition st_add_with_id (s : stream) (id : sid) (f : fields) : option stream :=
+  if sid_leb id (s_last s) then None
+  else if has_id id (s_entries s) then None
+  else Some {| s_entries := s_entries s ++ [(id, f)]; s_last := id; s_ams := fst id; s_aseq := snd id;
+               s_len := s_len s + 1; s_groups := s_groups s |}.
+
+(** AtomicUsize::fetch_sub: wraps on underflow *)
+Definition usub (a b : Z) : Z := if a <? b then a - b + two64 else a - b.
+
+(** Stream::trim_by_count *)
+Definition st_trim (s : stream) (maxlen : Z) : Z * stream :=
+  if len (s_entries s) <=? maxlen then (0, s)
+  else let n := len (s_entries s) - maxlen in
+       (n, {| s_entries := zskipn n (s_entries s); s_last := s_last s; s_ams := s_ams s; s_aseq := s_aseq s;
+              s_len := usub (s_len s) n; s_groups := s_groups s |}).
+
+Fixpoint sid_mem (x : sid) (l : list sid) : bool :=
+  match l with [] => false | y :: r => sid_eqb x y || sid_mem x r end.
+
+(** Stream::delete: every distinct listed id that is present is removed *)
+Definition st_delete (s : stream) (ids : list sid) : Z * stream :=
+  let kept := filter (fun e => negb (sid_mem (fst e) ids)) (s_entries s) in
+  let n := len (s_entries s) - len kept in
+  if 0 <? n then
+    (n, {| s_entries := kept; s_last := s_last s; s_ams := s_ams s; s_aseq := s_aseq s;
+           s_len := usub (s_len s) n; s_groups := s_groups s |})
+  else (0, s).
+
+Definition last_entry_id (s : stream) : option sid :=
+  match rev (s_entries s) with e :: _ => Some (fst e) | [] => None end.
+
+(** ------------------------------------------------------------------ *)
+(** * 3. Consumer groups                                                *)
+
+(** ConsumerGroup::new (after the repair 542e5a3): the cursor starts at the requested position *)
+Definition mk_group (start : sid) : group :=
+  {| g_last := start; g_by_id := []; g_by_consumer := []; g_consumers := [];
+     g_ncons := 0; g_total := 0; g_min := None; g_max := None |}.
+Definition new_group : group := mk_group sid_zero.
+
+(** in-place insert-or-replace on association lists *)
+Fixpoint aput {A} (k : bytes) (v : A) (l : list (bytes * A)) : list (bytes * A) :=
+  match l with
+  | [] => [(k, v)]
+  | (k', v') :: r => if beq k k' then (k, v) :: r else (k', v') :: aput k v r
+  end.
+
+(** BTreeMap<StreamId, PendingEntry> as a list sorted by id *)
+Fixpoint pel_insert (p : pending) (l : list pending) : list pending :=
+  match l with
+  | [] => [p]
+  | q :: r =>
+      match sid_cmp (p_id p) (p_id q) with
+      | Lt => p :: l
+      | Eq => p :: r
+      | Gt => q :: pel_insert p r
+      end
+  end.
+Fixpoint pel_find (id : sid) (l : list pending) : option pending :=
+  match l with
+  | [] => None
+  | q :: r => if sid_eqb id (p_id q) then Some q else pel_find id r
+  end.
+Fixpoint pel_remove (id : sid) (l : list pending) : list pending :=
+  match l with
+  | [] => []
+  | q :: r => if sid_eqb id (p_id q) then r else q :: pel_remove id r
+  end.
+Definition pel_min (l : list pending) : option sid :=
+  match l with q :: _ => Some (p_id q) | [] => None end.
+Definition pel_max (l : list pending) : option sid :=
+  match rev l with q :: _ => Some (p_id q) | [] => None end.
+
+Definition sat_sub (a b : Z) : Z := if a <? b then 0 else a - b.
+
+(** the PendingEntryList part of a group *)
+Definition set_pel (g : group) (byid : list pending) (bycons : list (bytes * list sid)) : group :=
+  {| g_last := g_last g; g_by_id := byid; g_by_consumer := bycons; g_consumers := g_consumers g;
+     g_ncons := g_ncons g; g_total := g_total g;
+     g_min := pel_min byid; g_max := pel_max byid |}.       (* update_bounds *)
+Definition set_consumers (g : group) (cs : list (bytes * Z)) : group :=
+  {| g_last := g_last g; g_by_id := g_by_id g; g_by_consumer := g_by_consumer g; g_consumers := cs;
+     g_ncons := g_ncons g; g_total := g_total g; g_min := g_min g; g_max := g_max g |}.
+Definition set_total (g : group) (t : Z) : group :=
+  {| g_last := g_last g; g_by_id := g_by_id g; g_by_consumer := g_by_consumer g; g_consumers := g_consumers g;
+     g_ncons := g_ncons g; g_total := t; g_min := g_min g; g_max := g_max g |}.
+Definition set_last (g : group) (l : sid) : group :=
+  {| g_last := l; g_by_id := g_by_id g; g_by_consumer := g_by_consumer g; g_consumers := g_consumers g;
+     g_ncons := g_ncons g; g_total := g_total g; g_min := g_min g; g_max := g_max g |}.
+
+(** entries_by_consumer.entry(c).or_insert_with(Vec::new).push(id) *)
+Definition bc_push (c : bytes) (id : sid) (m : list (bytes * list sid)) : list (bytes * list sid) :=
+  match alookup c m with
+  | Some l => aput c (l ++ [id]) m
+  | None => m ++ [(c, [id])]
+  end.
+(** retain(|x| x != id); remove the key when the Vec became empty *)
+Definition bc_drop (c : bytes) (id : sid) (m : list (bytes * list sid)) : list (bytes * list sid) :=
+  match alookup c m with
+  | Some l =>
+      let l' := filter (fun x => negb (sid_eqb x id)) l in
+      match l' with [] => aremove c m | _ => aput c l' m end
+  | None => m
+  end.
+
+(** PendingEntryList::add_entry *)
+Definition pel_add_entry (g : group) (p : pending) : group :=
+  set_pel g (pel_insert p (g_by_id g)) (bc_push (p_consumer p) (p_id p) (g_by_consumer g)).
+(** PendingEntryList::remove_entry *)
+Definition pel_remove_entry (g : group) (id : sid) : option pending * group :=
+  match pel_find id (g_by_id g) with
+  | Some e => (Some e, set_pel g (pel_remove id (g_by_id g)) (bc_drop (p_consumer e) id (g_by_consumer g)))
+  | None => (None, g)
+  end.
+
+(** ConsumerGroup::create_consumer *)
+Definition g_create_consumer (g : group) (c : bytes) : bool * group :=
+  if amem c (g_consumers g) then (false, g)
+  else (true,
+        {| g_last := g_last g; g_by_id := g_by_id g; g_by_consumer := g_by_consumer g;
+           g_consumers := g_consumers g ++ [(c, 0)];
+           g_ncons := g_ncons g + 1; g_total := g_total g; g_min := g_min g; g_max := g_max g |}).
+
+(** consumers.get_mut(c).map(|x| x.pending_count = f(x.pending_count)) *)
+Definition upd_count (c : bytes) (f : Z -> Z) (cs : list (bytes * Z)) : list (bytes * Z) :=
+  match alookup c cs with Some n => aput c (f n) cs | None => cs end.
+
+(** ConsumerGroup::add_pending (entries non-empty in every call) *)
+Definition g_add_pending (now : Z) (g : group) (c : bytes) (ids : list sid) : group :=
+  let g1 := snd (g_create_consumer g c) in
+  let g2 := fold_left (fun g id => pel_add_entry g {| p_id := id; p_consumer := c; p_time := now; p_count := 1 |})
+                      ids g1 in
+  let g3 := set_consumers g2 (upd_count c (fun n => n + len ids) (g_consumers g2)) in
+  let g4 := set_total g3 (g_total g3 + len ids) in
+  match rev ids with
+  | l :: _ => if sid_ltb (g_last g4) l then set_last g4 l else g4
+  | [] => g4
+  end.
+
+(** ConsumerGroup::acknowledge *)
+Definition g_ack_one (acc : Z * group) (id : sid) : Z * group :=
+  match acc with
+  | (n, g) =>
+      match pel_remove_entry g id with
+      | (Some e, g') => (n + 1, set_consumers g' (upd_count (p_consumer e) (fun k => sat_sub k 1) (g_consumers g')))
+      | (None, g') => (n, g')
+      end
+  end.
+Definition g_acknowledge (g : group) (ids : list sid) : Z * group :=
+  match fold_left g_ack_one ids (0, g) with
+  | (n, g') => (n, if 0 <? n then set_total g' (sat_sub (g_total g') n) else g')
+  end.
+
+(** PendingEntryList::transfer_ownership (the entry exists) *)
+Definition pel_transfer (now : Z) (g : group) (e : pending) (c : bytes) : group :=
+  let bc := bc_drop (p_consumer e) (p_id e) (g_by_consumer g) in
+  let e' := {| p_id := p_id e; p_consumer := c; p_time := now; p_count := p_count e + 1 |} in
+  {| g_last := g_last g; g_by_id := pel_insert e' (g_by_id g); g_by_consumer := bc_push c (p_id e) bc;
+     g_consumers := g_consumers g; g_ncons := g_ncons g; g_total := g_total g;
+     g_min := g_min g; g_max := g_max g |}.
+
+(** ConsumerGroup::claim_messages; idle time on the model clock *)
+Definition g_claim_one (now : Z) (c : bytes) (min_idle : Z) (force : bool)
+           (acc : list sid * group) (id : sid) : list sid * group :=
+  match acc with
+  | (cl, g) =>
+      match pel_find id (g_by_id g) with
+      | Some e =>
+          if negb force && (Z.max 0 (now - p_time e) <? min_idle) then (cl, g)
+          else
+            let cs1 := upd_count (p_consumer e) (fun k => sat_sub k 1) (g_consumers g) in
+            let cs2 := upd_count c (fun k => k + 1) cs1 in
+            (cl ++ [id], pel_transfer now (set_consumers g cs2) e c)
+      | None => (cl, g)
+      end
+  end.
+Definition g_claim (now : Z) (g : group) (c : bytes) (min_idle : Z) (ids : list sid) (force : bool)
+  : list sid * group :=
+  fold_left (g_claim_one now c min_idle force) ids ([], snd (g_create_consumer g c)).
+
+(** ConsumerGroup::delete_consumer / PendingEntryList::remove_consumer_entries *)
+Definition g_delete_consumer (g : group) (c : bytes) : Z * group :=
+  if amem c (g_consumers g) then
+    let cs := aremove c (g_consumers g) in
+    match alookup c (g_by_consumer g) with
+    | Some ids =>
+        let byid := fold_left (fun l id => pel_remove id l) ids (g_by_id g) in
+        let g1 := set_pel g byid (aremove c (g_by_consumer g)) in
+        (len ids,
+         {| g_last := g_last g1; g_by_id := g_by_id g1; g_by_consumer := g_by_consumer g1; g_consumers := cs;
+            g_ncons := sat_sub (g_ncons g) 1; g_total := sat_sub (g_total g) (len ids);
+            g_min := g_min g1; g_max := g_max g1 |})
+    | None =>
+        (0,
+         {| g_last := g_last g; g_by_id := g_by_id g; g_by_consumer := g_by_consumer g; g_consumers := cs;
+            g_ncons := sat_sub (g_ncons g) 1; g_total := sat_sub (g_total g) 0;
+            g_min := g_min g; g_max := g_max g |})
+    end
+  else (0, g).
+
+(** Stream::read_group.  [after = sid_max] is the marker for ">" *)
+Definition st_read_group (now : Z) (s : stream) (g : group) (c : bytes) (after : sid) (count : option Z)
+           (noack : bool) : list sentry * group :=
+  let es := if sid_eqb after sid_max then st_range_after (s_entries s) (g_last g) count
+            else st_range_after (s_entries s) after count in
+  match es with
+  | [] => ([], g)
+  | _ =>
+      if noack then
+        (* after the repair 18325a2: a ">" read still consumes the entries *)
+        (es, if sid_eqb after sid_max then
+               match rev es with
+               | l :: _ => if sid_ltb (g_last g) (fst l) then set_last g (fst l) else g
+               | [] => g
+               end
+             else g)
+      else (es, g_add_pending now g c (map fst es))
+  end.
+
+(** byte-wise sorted association lists for replies in canonical order *)
+Fixpoint kinsert {A} (k : bytes) (v : A) (l : list (bytes * A)) : list (bytes * A) :=
+  match l with
+  | [] => [(k, v)]
+  | (k', v') :: r => if bleb k k' then (k, v) :: l else (k', v') :: kinsert k v r
+  end.
+Definition ksort {A} (l : list (bytes * A)) : list (bytes * A) :=
+  fold_right (fun kv acc => kinsert (fst kv) (snd kv) acc) [] l.
+
+(** PendingEntryList::get_range on the BTreeMap: entries with start <= id <= end *)
+Definition pel_range (l : list pending) (st en : sid) : list pending :=
+  filter (fun p => sid_leb st (p_id p) && sid_leb (p_id p) en) l.
+Fixpoint filter_map {A B} (f : A -> option B) (l : list A) : list B :=
+  match l with
+  | [] => []
+  | x :: r => match f x with Some y => y :: filter_map f r | None => filter_map f r end
+  end.
+
+(** ------------------------------------------------------------------ *)
+(** * 4. Engine functions on the database                               *)
+
+Inductive sres := SStream (e : entry) (s : stream) | SMissing | SWrong.
+(** shard.data.get(key) without expiry test (xadd, xrange, xlen, xread, xtrim, xdel) *)
+Definition raw_stream (d : db) (k : bytes) : sres :=
+  match get_entry d k with
+  | Some e => match e_val e with VStream s => SStream e s | _ => SWrong end
+  | None => SMissing
+  end.
+Definition put_stream (d : db) (k : bytes) (e : entry) (s : stream) : db :=
+  put_entry d k {| e_val := VStream s; e_exp := e_exp e |}.
+Definition new_entry (s : stream) : entry := {| e_val := VStream s; e_exp := None |}.
+
+(** storage.get(db, key) of the group handlers: lazy expiry; the clone shares the groups *)
+Definition get_stream (now : Z) (d : db) (k : bytes) : sres * db :=
+  match eng_get now d k with
+  | (Found (VStream s), d') =>
+      (match get_entry d k with Some e => SStream e s | None => SMissing end, d')
+  | (Found _, d') => (SWrong, d')
+  | (_, d') => (SMissing, d')
+  end.
+
+Definition set_groups (s : stream) (gs : list (bytes * group)) : stream :=
+  {| s_entries := s_entries s; s_last := s_last s; s_ams := s_ams s; s_aseq := s_aseq s;
+     s_len := s_len s; s_groups := gs |}.
+Definition put_group (d : db) (k : bytes) (e : entry) (s : stream) (gn : bytes) (g : group) : db :=
+  put_stream d k e (set_groups s (aput gn g (s_groups s))).
+
+(** ------------------------------------------------------------------ *)
+(** * 5. Replies                                                        *)
+
+Definition r_fields (f : fields) : frame :=
+  FArray (flat_map (fun kv => [FBulk (fst kv); FBulk (snd kv)]) f).
+Definition r_entry (e : sentry) : frame := FArray [r_sid (fst e); r_fields (snd e)].
+Definition r_entries (l : list sentry) : frame := FArray (map r_entry l).
+Definition r_str (s : String.string) : frame := FBulk (bs s).
+Definition r_nogroup : frame := FError (bs "NOGROUP").
+Definition r_busygroup : frame := FError (bs "BUSYGROUP").
+(** marker for inputs on which the implementation panics (the server process exits) *)
+Definition r_panic : frame := FError (bs "PANIC").
+
+(** ------------------------------------------------------------------ *)
+(** * 6. Handlers: commands/streams.rs                                  *)
+
+(** field/value pairs of XADD from parts[3..]: Some map, or None when an argument is not a bulk string *)
+Fixpoint parse_fields (l : list frame) (acc : fields) : option fields :=
+  match l with
+  | FBulk f :: FBulk v :: r => parse_fields r (finsert f v acc)
+  | [] => Some acc
+  | _ => None
+  end.
+
+(** the ID of `XADD key *` reported by the implementation is admissible iff some clock
+    reading produces it; the reading is returned *)
+Definition auto_clock (s : stream) (oid : sid) : option Z :=
+  if (s_ams s <? fst oid) && (snd oid =? 0) then Some (fst oid)
+  else if (fst oid =? s_ams s) && (snd oid =? s_aseq s + 1) && (s_aseq s + 1 <=? u64_max) then Some (s_ams s)
+  else None.
+
+Definition oracle_sid (oracle : option frame) : option sid :=
+  match oracle with Some (FBulk b) => sid_of_bytes b | _ => None end.
+
+Definition h_xadd (d : db) (parts : list frame) (oracle : option frame) : frame * db :=
+  if (nparts parts <? 4) || negb ((nparts parts - 3) mod 2 =? 0) then (r_err, d) else
+  match nth_error parts 1, nth_error parts 2 with
+  | Some (FBulk k), Some idf =>
+      match arg_bytes idf with
+      | None => (r_err, d)
+      | Some idb =>
+          match parse_fields (skipn 3 parts) [] with
+          | None => (r_err, d)
+          | Some f =>
+              if beq idb (bs "*") then
+                (* storage.xadd *)
+                let go (e : entry) (s : stream) :=
+                  match oracle_sid oracle with
+                  | None =>
+                      (* no ID reported: the ID space is exhausted (every u64 clock reading is
+                         <= last_id_millis = u64::MAX), or the oracle is missing *)
+                      if (u64_max <? s_aseq s + 1) && (u64_max <? s_ams s + 1) then (r_err, d)
+                      else (FError (bs "NOORACLE"), d)
+                  | Some oid =>
+                      match auto_clock s oid with
+                      | None => (FError (bs "BADAUTOID"), d)
+                      | Some now_ms =>
+                          match st_add_auto now_ms s f with
+                          | Some (id, s') => (r_sid id, put_stream d k e s')
+                          | None => (r_err, d)
+                          end
+                      end
+                  end in
+                match raw_stream d k with
+                | SStream e s => go e s
+                | SWrong => (r_wrongtype, d)
+                | SMissing => go (new_entry empty_stream) empty_stream
+                end
+              else
+                match sid_of_bytes idb with
+                | None => (r_err, d)
+                | Some id =>
+                    if (fst id =? 0) && (snd id =? 0) then (r_err, d) else
+                    (* storage.xadd_with_id *)
+                    match raw_stream d k with
+                    | SStream e s =>
+                        match st_add_with_id s id f with
+                        | Some s' => (r_sid id, put_stream d k e s')
+                        | None => (r_err, d)
+                        end
+                    | SWrong => (r_err, d)      (* the handler rewraps every engine error as "ERR ..." *)
+                    | SMissing =>
+                        match st_add_with_id empty_stream id f with
+                        | Some s' => (r_sid id, put_entry d k (new_entry s'))
+                        | None => (r_err, d)
+                        end
+                    end
+                end
+          end
+      end
+  | Some _, Some _ => (r_err, d)
+  | _, _ => (r_err, d)
+  end.
+
+(** "-" / "+" / from_string *)
+Definition parse_bound (special : bytes) (v : sid) (b : bytes) : option sid :=
+  if beq b special then Some v else sid_of_bytes b.
+
+Definition engine_range (d : db) (k : bytes) (st en : sid) (count : option Z) (reverse : bool) : frame :=
+  match raw_stream d k with
+  | SStream _ s => r_entries (st_range (s_entries s) st en count reverse)
+  | SWrong => r_wrongtype
+  | SMissing => FArray []
+  end.
+
+Definition is_kw (f : option frame) (kw : String.string) : bool :=
+  match f with Some (FBulk b) => beq (upper b) (bs kw) | _ => false end.
+
+Definition h_xrange (d : db) (parts : list frame) : frame * db :=
+  if nparts parts <? 4 then (r_err, d) else
+  match nth_arg parts 1, nth_arg parts 2 with
+  | Some k, Some sb =>
+      match parse_bound (bs "-") sid_zero sb with
+      | None => (r_err, d)
+      | Some st =>
+          match nth_arg parts 3 with
+          | None => (r_err, d)
+          | Some eb =>
+              match parse_bound (bs "+") sid_max eb with
+              | None => (r_err, d)
+              | Some en =>
+                  if (6 <=? nparts parts) && is_kw (nth_error parts 4) "COUNT" then
+                    match nth_arg parts 5 with
+                    | Some cb => match parse_usize cb with
+                                 | Some n => (engine_range d k st en (Some n) false, d)
+                                 | None => (r_err, d)
+                                 end
+                    | None => (r_err, d)
+                    end
+                  else (engine_range d k st en None false, d)
+              end
+          end
+      end
+  | _, _ => (r_err, d)
+  end.
+
+(** XREVRANGE key end start [COUNT n | n] *)
+Definition h_xrevrange (d : db) (parts : list frame) : frame * db :=
+  if nparts parts <? 4 then (r_err, d) else
+  match nth_arg parts 1, nth_arg parts 2 with
+  | Some k, Some eb =>
+      match parse_bound (bs "+") sid_max eb with
+      | None => (r_err, d)
+      | Some en =>
+          match nth_arg parts 3 with
+          | None => (r_err, d)
+          | Some sb =>
+              match parse_bound (bs "-") sid_zero sb with
+              | None => (r_err, d)
+              | Some st =>
+                  if (6 <=? nparts parts) && is_kw (nth_error parts 4) "COUNT" then
+                    match nth_arg parts 5 with
+                    | Some cb => match parse_usize cb with
+                                 | Some n => (engine_range d k st en (Some n) true, d)
+                                 | None => (r_err, d)
+                                 end
+                    | None => (r_err, d)
+                    end
+                  else if nparts parts =? 5 then
+                    match nth_arg parts 4 with
+                    | Some cb => (engine_range d k st en (parse_usize cb) true, d)
+                    | None => (engine_range d k st en None true, d)
+                    end
+                  else (engine_range d k st en None true, d)
+              end
+          end
+      end
+  | _, _ => (r_err, d)
+  end.
+
+Definition h_xlen (d : db) (parts : list frame) : frame * db :=
+  if negb (nparts parts =? 2) then (r_err, d) else
+  match nth_arg parts 1 with
+  | None => (r_err, d)
+  | Some k =>
+      match raw_stream d k with
+      | SStream _ s => (r_int (s_len s), d)
+      | SWrong => (r_wrongtype, d)
+      | SMissing => (r_int 0, d)
+      end
+  end.
+
+(** option scanner shared in shape by XREAD and XREADGROUP *)
+Record ropts := { ro_count : option Z; ro_block : option Z; ro_noack : bool }.
+Inductive scanres := ScanOk (o : ropts) (rest : list frame) | ScanErr.
+(** [grp] = true: XREADGROUP (COUNT/BLOCK parse failures are silently None, NOACK accepted) *)
+Fixpoint scan_ropts (fuel : nat) (grp : bool) (l : list frame) (o : ropts) : scanres :=
+  match fuel with
+  | O => ScanErr
+  | S fu =>
+    match l with
+    | [] => ScanErr                                          (* i >= parts.len(): syntax error *)
+    | FBulk a :: r =>
+        let u := upper a in
+        if beq u (bs "COUNT") && negb (len r =? 0) then
+          match r with
+          | FBulk c :: r' =>
+              match parse_usize c with
+              | Some n => scan_ropts fu grp r' {| ro_count := Some n; ro_block := ro_block o; ro_noack := ro_noack o |}
+              | None => if grp then scan_ropts fu grp r' {| ro_count := None; ro_block := ro_block o; ro_noack := ro_noack o |}
+                        else ScanErr
+              end
+          | _ :: r' => if grp then scan_ropts fu grp r' {| ro_count := None; ro_block := ro_block o; ro_noack := ro_noack o |}
+                       else ScanErr
+          | [] => ScanErr
+          end
+        else if beq u (bs "BLOCK") && negb (len r =? 0) then
+          match r with
+          | FBulk c :: r' =>
+              match parse_u64 c with
+              | Some n => scan_ropts fu grp r' {| ro_count := ro_count o; ro_block := Some n; ro_noack := ro_noack o |}
+              | None => if grp then scan_ropts fu grp r' {| ro_count := ro_count o; ro_block := None; ro_noack := ro_noack o |}
+                        else ScanErr
+              end
+          | _ :: r' => if grp then scan_ropts fu grp r' {| ro_count := ro_count o; ro_block := None; ro_noack := ro_noack o |}
+                       else ScanErr
+          | [] => ScanErr
+          end
+        else if grp && beq u (bs "NOACK") then
+          scan_ropts fu grp r {| ro_count := ro_count o; ro_block := ro_block o; ro_noack := true |}
+        else if beq u (bs "STREAMS") then
+          match r with [] => ScanErr | _ => ScanOk o r end
+        else ScanErr
+    | _ => ScanErr
+    end
+  end.
+
+(** first loop of handle_xread: keys and IDs ("$" reads the stream: WRONGTYPE escapes here) *)
+Inductive xr_ids := XrOk (l : list (bytes * sid)) | XrErr (f : frame).
+Fixpoint xread_ids (d : db) (keys ids : list frame) : xr_ids :=
+  match keys, ids with
+  | kf :: keys', idf :: ids' =>
+      match kf with
+      | FBulk k =>
+          match idf with
+          | FBulk ib =>
+              let cont (a : sid) :=
+                match xread_ids d keys' ids' with
+                | XrOk l => XrOk ((k, a) :: l)
+                | XrErr f => XrErr f
+                end in
+              if beq ib (bs "$") then
+                match raw_stream d k with
+                | SStream _ s =>
+                    cont (match rev (st_range (s_entries s) sid_zero sid_max None false) with
+                          | e :: _ => fst e | [] => sid_zero end)
+                | SWrong => XrErr r_wrongtype
+                | SMissing => cont sid_zero
+                end
+              else if beq ib (bs "0") || beq ib (bs "0-0") then cont sid_zero
+              else match sid_of_bytes ib with
+                   | Some a => cont a
+                   | None => XrErr r_err
+                   end
+          | _ => XrErr r_err
+          end
+      | _ => XrErr r_err
+      end
+  | _, _ => XrOk []
+  end.
+(** storage.xread *)
+Fixpoint engine_xread (d : db) (l : list (bytes * sid)) (count : option Z) : option (list frame) :=
+  match l with
+  | [] => Some []
+  | (k, a) :: r =>
+      match raw_stream d k with
+      | SStream _ s =>
+          match engine_xread d r count with
+          | Some fr =>
+              match st_range_after (s_entries s) a count with
+              | [] => Some fr
+              | es => Some (FArray [FBulk k; r_entries es] :: fr)
+              end
+          | None => None
+          end
+      | SWrong => None
+      | SMissing => engine_xread d r count
+      end
+  end.
+Definition h_xread (d : db) (parts : list frame) : frame * db :=
+  if nparts parts <? 4 then (r_err, d) else
+  match scan_ropts (length parts) false (skipn 1 parts) {| ro_count := None; ro_block := None; ro_noack := false |} with
+  | ScanErr => (r_err, d)
+  | ScanOk o rest =>
+      if negb (len rest mod 2 =? 0) then (r_err, d) else
+      let n := Z.to_nat (len rest / 2) in
+      match xread_ids d (firstn n rest) (skipn n rest) with
+      | XrErr f => (f, d)
+      | XrOk l =>
+          match engine_xread d l (ro_count o) with
+          | Some fr => (FArray fr, d)
+          | None => (r_wrongtype, d)
+          end
+      end
+  end.
+
+(** the MAXLEN argument of XTRIM in its accepted spellings (None = an error reply) *)
+Definition xtrim_maxlen (parts : list frame) : option Z :=
+  if nparts parts =? 5 then
+    match nth_arg parts 3 with
+    | None => None
+    | Some m =>
+        if beq m (bs "~") || beq m (bs "=") then
+          match nth_arg parts 4 with
+          | Some c => parse_usize c
+          | None => None
+          end
+        else parse_usize m
+    end
+  else if nparts parts =? 4 then
+    match nth_arg parts 3 with
+    | Some a => if beq a (bs "~") || beq a (bs "=") then None else parse_usize a
+    | None => None
+    end
+  else None.
+
+Definition h_xtrim (d : db) (parts : list frame) : frame * db :=
+  if nparts parts <? 4 then (r_err, d) else
+  match nth_arg parts 1 with
+  | None => (r_err, d)
+  | Some k =>
+      match nth_arg parts 2 with
+      | None => (r_err, d)
+      | Some strat =>
+          if negb (beq (upper strat) (bs "MAXLEN")) then (r_err, d) else
+          match xtrim_maxlen parts with
+          | None => (r_err, d)
+          | Some n =>
+              match raw_stream d k with
+              | SStream e s => match st_trim s n with
+                               | (t, s') => (r_int t, if 0 <? t then put_stream d k e s' else d)
+                               end
+              | SWrong => (r_wrongtype, d)
+              | SMissing => (r_int 0, d)
+              end
+          end
+      end
+  end.
+
+(** IDs from a list of argument frames; None = an argument is not a bulk string or not an ID *)
+Fixpoint parse_ids (l : list frame) : option (list sid) :=
+  match l with
+  | [] => Some []
+  | FBulk b :: r =>
+      match sid_of_bytes b with
+      | Some i => match parse_ids r with Some t => Some (i :: t) | None => None end
+      | None => None
+      end
+  | _ => None
+  end.
+
+Definition h_xdel (d : db) (parts : list frame) : frame * db :=
+  if nparts parts <? 3 then (r_err, d) else
+  match nth_arg parts 1 with
+  | None => (r_err, d)
+  | Some k =>
+      match parse_ids (skipn 2 parts) with
+      | None => (r_err, d)
+      | Some ids =>
+          match raw_stream d k with
+          | SStream e s => match st_delete s ids with
+                           | (n, s') => (r_int n, if 0 <? n then put_stream d k e s' else d)
+                           end
+          | SWrong => (r_wrongtype, d)
+          | SMissing => (r_int 0, d)
+          end
+      end
+  end.
+
+(** ------------------------------------------------------------------ *)
+(** * 7. Handlers: commands/consumer_groups.rs                          *)
+
+Definition help_xgroup : frame :=
+  FArray (map r_str [
+    "XGROUP <subcommand> [<arg> [value] [opt] ...]. Subcommands are:";
+    "CREATE <key> <groupname> <id or $> [MKSTREAM]";
+    "    Create a new consumer group.";
+    "SETID <key> <groupname> <id or $>";
+    "    Set the current group ID.";
+    "DESTROY <key> <groupname>";
+    "    Remove the consumer group.";
+    "CREATECONSUMER <key> <groupname> <consumername>";
+    "    Create a new consumer in the group.";
+    "DELCONSUMER <key> <groupname> <consumername>";
+    "    Remove the consumer from the group.";
+    "HELP";
+    "    Print this help."]%string).
+Definition help_xinfo : frame :=
+  FArray (map r_str [
+    "XINFO <subcommand> [<arg> [value] [opt] ...]. Subcommands are:";
+    "STREAM <key>";
+    "    Show information about a stream.";
+    "GROUPS <key>";
+    "    Show the consumer groups of a stream.";
+    "CONSUMERS <key> <groupname>";
+    "    Show consumers of a consumer group.";
+    "HELP";
+    "    Print this help."]%string).
+
+Definition h_xgroup_create (now : Z) (d : db) (parts : list frame) : frame * db :=
+  if nparts parts <? 5 then (r_err, d) else
+  match nth_arg parts 2, nth_arg parts 3, nth_arg parts 4 with
+  | Some k, Some gn, Some idb =>
+      let mk := (5 <? nparts parts) && is_kw (nth_error parts 5) "MKSTREAM" in
+      (* after the repair 7f9490b: a malformed ID is refused before MKSTREAM creates the key *)
+      if negb (beq idb (bs "$")) && negb (beq idb (bs "0")) &&
+         (match sid_of_bytes idb with None => true | Some _ => false end) then (r_err, d) else
+      let create (d1 : db) (e : entry) (s : stream) : frame * db :=
+        let start :=
+          if beq idb (bs "$") then Some (match last_entry_id s with Some i => i | None => sid_zero end)
+          else if beq idb (bs "0") || beq idb (bs "0-0") then Some sid_zero
+          else sid_of_bytes idb in
+        match start with
+        | None => (r_err, d1)
+        | Some st =>
+            if amem gn (s_groups s) then (r_busygroup, d1)
+            else (r_ok, put_stream d1 k e (set_groups s (s_groups s ++ [(gn, mk_group st)])))
+        end in
+      match get_stream now d k with
+      | (SStream e s, d1) => create d1 e s
+      | (SWrong, d1) => (r_wrongtype, d1)
+      | (SMissing, d1) =>
+          if mk then
+            let d2 := set_value now d1 k (VStream empty_stream) None in
+            create d2 (new_entry empty_stream) empty_stream
+          else (r_err, d1)
+      end
+  | _, _, _ => (r_err, d)
+  end.
+
+Definition h_xgroup_destroy (now : Z) (d : db) (parts : list frame) : frame * db :=
+  if negb (nparts parts =? 4) then (r_err, d) else
+  match nth_arg parts 2, nth_arg parts 3 with
+  | Some k, Some gn =>
+      match get_stream now d k with
+      | (SStream e s, d1) =>
+          if amem gn (s_groups s)
+          then (r_int 1, put_stream d1 k e (set_groups s (aremove gn (s_groups s))))
+          else (r_int 0, d1)
+      | (SWrong, d1) => (r_wrongtype, d1)
+      | (SMissing, d1) => (r_int 0, d1)
+      end
+  | _, _ => (r_err, d)
+  end.
+
+Definition h_xgroup_createconsumer (now : Z) (d : db) (parts : list frame) : frame * db :=
+  if negb (nparts parts =? 5) then (r_err, d) else
+  match nth_arg parts 2, nth_arg parts 3, nth_arg parts 4 with
+  | Some k, Some gn, Some c =>
+      match get_stream now d k with
+      | (SStream e s, d1) =>
+          match alookup gn (s_groups s) with
+          | Some g => match g_create_consumer g c with
+                      | (true, g') => (r_int 1, put_group d1 k e s gn g')
+                      | (false, _) => (r_int 0, d1)
+                      end
+          | None => (r_nogroup, d1)
+          end
+      | (SWrong, d1) => (r_wrongtype, d1)
+      | (SMissing, d1) => (r_err, d1)
+      end
+  | _, _, _ => (r_err, d)
+  end.
+
+Definition h_xgroup_delconsumer (now : Z) (d : db) (parts : list frame) : frame * db :=
+  if negb (nparts parts =? 5) then (r_err, d) else
+  match nth_arg parts 2, nth_arg parts 3, nth_arg parts 4 with
+  | Some k, Some gn, Some c =>
+      match get_stream now d k with
+      | (SStream e s, d1) =>
+          match alookup gn (s_groups s) with
+          | Some g => match g_delete_consumer g c with
+                      | (n, g') => (r_int n, put_group d1 k e s gn g')
+                      end
+          | None => (r_int 0, d1)
+          end
+      | (SWrong, d1) => (r_wrongtype, d1)
+      | (SMissing, d1) => (r_int 0, d1)
+      end
+  | _, _, _ => (r_err, d)
+  end.
+
+Definition h_xgroup_setid (now : Z) (d : db) (parts : list frame) : frame * db :=
+  if nparts parts <? 5 then (r_err, d) else
+  match nth_arg parts 2, nth_arg parts 3, nth_arg parts 4 with
+  | Some k, Some gn, Some idb =>
+      match get_stream now d k with
+      | (SStream e s, d1) =>
+          let nid := if beq idb (bs "$")
+                     then Some (match last_entry_id s with Some i => i | None => sid_zero end)
+                     else sid_of_bytes idb in
+          match nid with
+          | None => (r_err, d1)
+          | Some i =>
+              match alookup gn (s_groups s) with
+              | Some g => (r_ok, put_group d1 k e s gn (set_last g i))
+              | None => (r_nogroup, d1)
+              end
+          end
+      | (SWrong, d1) => (r_wrongtype, d1)
+      | (SMissing, d1) => (r_err, d1)
+      end
+  | _, _, _ => (r_err, d)
+  end.
+
+Definition h_xgroup (now : Z) (d : db) (parts : list frame) : frame * db :=
+  if nparts parts <? 2 then (r_err, d) else
+  match nth_arg parts 1 with
+  | None => (r_err, d)
+  | Some sub =>
+      let u := upper sub in
+      if beq u (bs "CREATE") then h_xgroup_create now d parts
+      else if beq u (bs "DESTROY") then h_xgroup_destroy now d parts
+      else if beq u (bs "CREATECONSUMER") then h_xgroup_createconsumer now d parts
+      else if beq u (bs "DELCONSUMER") then h_xgroup_delconsumer now d parts
+      else if beq u (bs "SETID") then h_xgroup_setid now d parts
+      else if beq u (bs "HELP") then (help_xgroup, d)
+      else (r_err, d)
+  end.
+
+(** the per-key loop of handle_xreadgroup; an early `return` discards the replies
+    collected so far but not the effects *)
+Fixpoint xreadgroup_loop (now : Z) (d : db) (gn c : bytes) (o : ropts) (keys ids : list frame)
+         (acc : list frame) : frame * db :=
+  match keys, ids with
+  | kf :: keys', idf :: ids' =>
+      match kf with
+      | FBulk k =>
+          match idf with
+          | FBulk ib =>
+              match get_stream now d k with
+              | (SStream e s, d1) =>
+                  let after := if beq ib (bs ">") then Some sid_max
+                               else if beq ib (bs "0") || beq ib (bs "0-0") then Some sid_zero
+                               else sid_of_bytes ib in
+                  match after with
+                  | None => (r_err, d1)
+                  | Some a =>
+                      match alookup gn (s_groups s) with
+                      | None => (r_nogroup, d1)
+                      | Some g =>
+                          match st_read_group now s g c a (ro_count o) (ro_noack o) with
+                          | ([], _) => xreadgroup_loop now d1 gn c o keys' ids' acc
+                          | (es, g') =>
+                              xreadgroup_loop now (put_group d1 k e s gn g') gn c o keys' ids'
+                                              (acc ++ [FArray [FBulk k; r_entries es]])
+                          end
+                      end
+                  end
+              | (SWrong, d1) => (r_wrongtype, d1)
+              | (SMissing, d1) => xreadgroup_loop now d1 gn c o keys' ids' acc
+              end
+          | _ => (r_err, d)
+          end
+      | _ => (r_err, d)
+      end
+  | _, _ =>
+      match acc, ro_block o with
+      | [], Some _ => (FNullArray, d)
+      | _, _ => (FArray acc, d)
+      end
+  end.
+
+Definition h_xreadgroup (now : Z) (d : db) (parts : list frame) : frame * db :=
+  if nparts parts <? 6 then (r_err, d) else
+  if negb (is_kw (nth_error parts 1) "GROUP") then (r_err, d) else
+  match nth_arg parts 2, nth_arg parts 3 with
+  | Some gn, Some c =>
+      match scan_ropts (length parts) true (skipn 4 parts) {| ro_count := None; ro_block := None; ro_noack := false |} with
+      | ScanErr => (r_err, d)
+      | ScanOk o rest =>
+          if negb (len rest mod 2 =? 0) then (r_err, d) else
+          let n := Z.to_nat (len rest / 2) in
+          xreadgroup_loop now d gn c o (firstn n rest) (skipn n rest) []
+      end
+  | _, _ => (r_err, d)
+  end.
+
+Definition h_xack (now : Z) (d : db) (parts : list frame) : frame * db :=
+  if nparts parts <? 4 then (r_err, d) else
+  match nth_arg parts 1, nth_arg parts 2 with
+  | Some k, Some gn =>
+      match parse_ids (skipn 3 parts) with
+      | None => (r_err, d)
+      | Some ids =>
+          match get_stream now d k with
+          | (SStream e s, d1) =>
+              match alookup gn (s_groups s) with
+              | Some g => match g_acknowledge g ids with
+                          | (n, g') => (r_int n, put_group d1 k e s gn g')
+                          end
+              | None => (r_int 0, d1)
+              end
+          | (SWrong, d1) => (r_wrongtype, d1)
+          | (SMissing, d1) => (r_int 0, d1)
+          end
+      end
+  | _, _ => (r_err, d)
+  end.
+
+Definition r_optsid (o : option sid) : frame := match o with Some i => r_sid i | None => FNullBulk end.
+Definition r_pending_row (now : Z) (p : pending) : frame :=
+  FArray [r_sid (p_id p); FBulk (p_consumer p); FInt (Z.max 0 (now - p_time p)); FInt (p_count p)].
+
+Definition h_xpending (now : Z) (d : db) (parts : list frame) : frame * db :=
+  if nparts parts <? 3 then (r_err, d) else
+  match nth_arg parts 1, nth_arg parts 2 with
+  | Some k, Some gn =>
+      match get_stream now d k with
+      | (SStream e s, d1) =>
+          match alookup gn (s_groups s) with
+          | None => (FNullArray, d1)
+          | Some g =>
+              if nparts parts =? 3 then
+                (FArray [FInt (len (g_by_id g)); r_optsid (g_min g); r_optsid (g_max g);
+                         FArray (map (fun cn => FArray [FBulk (fst cn); FInt (snd cn)])
+                                     (ksort (filter (fun cn => 0 <? snd cn) (g_consumers g))))], d1)
+              else if nparts parts <? 6 then (r_err, d1)
+              else
+                match nth_arg parts 3, nth_arg parts 4 with
+                | Some sb, Some eb =>
+                    match nth_arg parts 5 with
+                    | Some cb =>
+                        match parse_usize cb with
+                        | Some cnt =>
+                            let cons := if 6 <? nparts parts then nth_arg parts 6 else None in
+                            let st := if beq sb (bs "-") then None else sid_of_bytes sb in
+                            let en := if beq eb (bs "+") then None else sid_of_bytes eb in
+                            match cons with
+                            | Some c =>
+                                let rows := match alookup c (g_by_consumer g) with
+                                            | Some ids => filter_map (fun i => pel_find i (g_by_id g)) ids
+                                            | None => []
+                                            end in
+                                (FArray (map (r_pending_row now) (ztake cnt rows)), d1)
+                            | None =>
+                                let st' := match st with Some i => i | None => sid_zero end in
+                                let en' := match en with Some i => i | None => sid_max end in
+                                (* after the repair 8b811fd: an inverted range selects nothing *)
+                                if sid_ltb en' st' then (FArray [], d1)
+                                else (FArray (map (r_pending_row now) (ztake cnt (pel_range (g_by_id g) st' en'))), d1)
+                            end
+                        | None => (r_err, d1)
+                        end
+                    | None => (r_err, d1)
+                    end
+                | _, _ => (r_err, d1)
+                end
+          end
+      | (SWrong, d1) => (r_wrongtype, d1)
+      | (SMissing, d1) => (FNullArray, d1)
+      end
+  | _, _ => (r_err, d)
+  end.
+
+(** options and IDs of XCLAIM from parts[5..] *)
+Record copts := { co_ids : list sid; co_force : bool; co_justid : bool }.
+Fixpoint scan_claim (fuel : nat) (l : list frame) (o : copts) : option copts :=
+  match fuel with
+  | O => None
+  | S fu =>
+    match l with
+    | [] => Some o
+    | FBulk a :: r =>
+        let u := upper a in
+        if beq u (bs "FORCE") then scan_claim fu r {| co_ids := co_ids o; co_force := true; co_justid := co_justid o |}
+        else if beq u (bs "JUSTID") then scan_claim fu r {| co_ids := co_ids o; co_force := co_force o; co_justid := true |}
+        else if beq u (bs "IDLE") || beq u (bs "TIME") || beq u (bs "RETRYCOUNT") then scan_claim fu (skipn 1 r) o
+        else match sid_of_bytes a with
+             | Some i => scan_claim fu r {| co_ids := co_ids o ++ [i]; co_force := co_force o; co_justid := co_justid o |}
+             | None => None
+             end
+    | _ => None
+    end
+  end.
+
+Definition find_entry (id : sid) (es : list sentry) : option sentry :=
+  match bsearch id es with
+  | (true, i) => znth i es
+  | (false, _) => None
+  end.
+
+Definition h_xclaim (now : Z) (d : db) (parts : list frame) : frame * db :=
+  if nparts parts <? 6 then (r_err, d) else
+  match nth_arg parts 1, nth_arg parts 2, nth_arg parts 3 with
+  | Some k, Some gn, Some c =>
+      match nth_arg parts 4 with
+      | None => (r_err, d)
+      | Some mb =>
+          match parse_u64 mb with
+          | None => (r_err, d)
+          | Some min_idle =>
+              match scan_claim (length parts) (skipn 5 parts) {| co_ids := []; co_force := false; co_justid := false |} with
+              | None => (r_err, d)
+              | Some o =>
+                  match co_ids o with
+                  | [] => (r_err, d)
+                  | ids =>
+                      match get_stream now d k with
+                      | (SStream e s, d1) =>
+                          match alookup gn (s_groups s) with
+                          | None => (r_nogroup, d1)
+                          | Some g =>
+                              match g_claim now g c min_idle ids (co_force o) with
+                              | (cl, g') =>
+                                  let es := filter_map (fun i => find_entry i (s_entries s)) cl in
+                                  (if co_justid o then FArray (map (fun x => r_sid (fst x)) es) else r_entries es,
+                                   put_group d1 k e s gn g')
+                              end
+                          end
+                      | (SWrong, d1) => (r_wrongtype, d1)
+                      | (SMissing, d1) => (FArray [], d1)
+                      end
+                  end
+              end
+          end
+      end
+  | _, _, _ => (r_err, d)
+  end.
+
+Definition r_entry_or_nil (o : option sentry) : frame :=
+  match o with Some e => r_entry e | None => FNullArray end.
+
+Definition h_xinfo (now : Z) (d : db) (parts : list frame) : frame * db :=
+  if nparts parts <? 2 then (r_err, d) else
+  match nth_arg parts 1 with
+  | None => (r_err, d)
+  | Some sub =>
+      let u := upper sub in
+      if beq u (bs "STREAM") then
+        if nparts parts <? 3 then (r_err, d) else
+        match nth_arg parts 2 with
+        | None => (r_err, d)
+        | Some k =>
+            match get_stream now d k with
+            | (SStream _ s, d1) =>
+                let first := match s_entries s with e :: _ => Some e | [] => None end in
+                let last := match rev (s_entries s) with e :: _ => Some e | [] => None end in
+                (FArray [r_str "length"; FInt (s_len s);
+                         r_str "radix-tree-keys"; FInt 1;
+                         r_str "radix-tree-nodes"; FInt 2;
+                         r_str "last-generated-id";
+                         r_sid (match last with Some e => fst e | None => sid_zero end);
+                         r_str "groups"; FInt (len (s_groups s));
+                         r_str "first-entry"; r_entry_or_nil first;
+                         r_str "last-entry"; r_entry_or_nil last], d1)
+            | (SWrong, d1) => (r_wrongtype, d1)
+            | (SMissing, d1) => (r_err, d1)
+            end
+        end
+      else if beq u (bs "GROUPS") then
+        if negb (nparts parts =? 3) then (r_err, d) else
+        match nth_arg parts 2 with
+        | None => (r_err, d)
+        | Some k =>
+            match get_stream now d k with
+            | (SStream _ s, d1) =>
+                (FArray (map (fun ng : bytes * group =>
+                                FArray [r_str "name"; FBulk (fst ng);
+                                        r_str "consumers"; FInt (g_ncons (snd ng));
+                                        r_str "pending"; FInt (g_total (snd ng));
+                                        r_str "last-delivered-id"; r_sid (g_last (snd ng))])
+                             (ksort (s_groups s))), d1)
+            | (SWrong, d1) => (r_wrongtype, d1)
+            | (SMissing, d1) => (FArray [], d1)
+            end
+        end
+      else if beq u (bs "CONSUMERS") then
+        if negb (nparts parts =? 4) then (r_err, d) else
+        match nth_arg parts 2, nth_arg parts 3 with
+        | Some k, Some gn =>
+            match get_stream now d k with
+            | (SStream _ s, d1) =>
+                match alookup gn (s_groups s) with
+                | None => (r_nogroup, d1)
+                | Some g =>
+                    (FArray (map (fun cn : bytes * Z =>
+                                    FArray [r_str "name"; FBulk (fst cn);
+                                            r_str "pending"; FInt (snd cn);
+                                            r_str "idle"; FInt 0])
+                                 (ksort (g_consumers g))), d1)
+                end
+            | (SWrong, d1) => (r_wrongtype, d1)
+            | (SMissing, d1) => (FArray [], d1)
+            end
+        | _, _ => (r_err, d)
+        end
+      else if beq u (bs "HELP") then (help_xinfo, d)
+      else (r_err, d)
+  end.
+
+(** time-dependent parts of replies are canonicalised identically by the harness
+    (harness/src/c15.rs canon_streams): the idle column of extended XPENDING and the
+    idle value of XINFO CONSUMERS become 0 *)
+Definition canon_idle_row (f : frame) : frame :=
+  match f with
+  | FArray [FBulk a; FBulk b; FInt _; FInt n] => FArray [FBulk a; FBulk b; FInt 0; FInt n]
+  | FArray [FBulk a; FBulk b; FBulk c; FInt n; FBulk e; FInt _] =>
+      if beq e (bs "idle") then FArray [FBulk a; FBulk b; FBulk c; FInt n; FBulk e; FInt 0] else f
+  | _ => f
+  end.
+Definition canon_streams (name : bytes) (f : frame) : frame :=
+  if beq name (bs "XPENDING") || beq name (bs "XINFO") then
+    match f with FArray l => FArray (map canon_idle_row l) | _ => f end
+  else f.
+
 (** dispatch of this family; None = not a command of this family.
-    [oracle] = the implementation's reply for commands with random outcomes. *)
+    [oracle] = the implementation's reply (used by XADD with an auto-generated ID). *)
 Definition exec_streams (now : Z) (d : db) (name : bytes) (parts : list frame) (oracle : option frame)
-  : option (frame * db) := None.
+  : option (frame * db) :=
+  if beq name (bs "XADD") then Some (h_xadd d parts oracle)
+  else if beq name (bs "XRANGE") then Some (h_xrange d parts)
+  else if beq name (bs "XREVRANGE") then Some (h_xrevrange d parts)
+  else if beq name (bs "XLEN") then Some (h_xlen d parts)
+  else if beq name (bs "XREAD") then Some (h_xread d parts)
+  else if beq name (bs "XTRIM") then Some (h_xtrim d parts)
+  else if beq name (bs "XDEL") then Some (h_xdel d parts)
+  else if beq name (bs "XGROUP") then Some (h_xgroup now d parts)
+  else if beq name (bs "XREADGROUP") then Some (h_xreadgroup now d parts)
+  else if beq name (bs "XACK") then Some (h_xack now d parts)
+  else if beq name (bs "XCLAIM") then Some (h_xclaim now d parts)
+  else if beq name (bs "XPENDING") then Some (h_xpending now d parts)
+  else if beq name (bs "XINFO") then Some (h_xinfo now d parts)
+  else None.
+
+(** ---- WATCH (C08): the keys on which the engine calls mark_modified ----
+    xadd / xadd_with_id mark on success, xtrim / xdel when something was removed.  The
+    consumer-group commands never mark for what they do to the group (pending entries,
+    cursor, consumers live behind a shared Arc outside the engine: finding
+    stream-group-writes-unmarked); they mark only through storage.get removing an expired
+    key and through set_value of XGROUP CREATE ... MKSTREAM. *)
+Definition gone_keys (d d' : db) : list bytes :=
+  filter (fun k => negb (amem k (d_data d'))) (map fst (d_data d)).
+Definition fresh_keys (d d' : db) : list bytes :=
+  filter (fun k => negb (amem k (d_data d))) (map fst (d_data d')).
+(** removed as expired by storage.get and created again by MKSTREAM in the same command:
+    the entry lost its deadline (put_stream keeps deadlines); marked twice *)
+Definition reborn_keys (d d' : db) : list bytes :=
+  flat_map (fun ke : bytes * entry =>
+              match e_exp (snd ke), alookup (fst ke) (d_data d') with
+              | Some _, Some e' => match e_exp e' with None => [fst ke; fst ke] | Some _ => [] end
+              | _, _ => []
+              end) (d_data d).
+Definition marks_streams (d d' : db) (name : bytes) (parts : list frame) (reply : frame) : list bytes :=
+  let k1 := match nth_arg parts 1 with Some k => [k] | None => [] end in
+  if beq name (bs "XADD") then (match reply with FBulk _ => k1 | _ => [] end)
+  else if beq name (bs "XTRIM") || beq name (bs "XDEL") then
+    (match reply with FInt n => if 0 <? n then k1 else [] | _ => [] end)
+  else if beq name (bs "XGROUP") || beq name (bs "XREADGROUP") || beq name (bs "XACK") || beq name (bs "XCLAIM")
+          || beq name (bs "XPENDING") || beq name (bs "XINFO") then
+    gone_keys d d' ++ reborn_keys d d' ++ fresh_keys d d'
+  else [].
